@@ -18,13 +18,13 @@ from vf.sim.scenario import Sim
 
 LEVEL = "exploration"
 RULE = ("histories of 1-30 steps on one APIClient over several consecutive sessions from {start_connection, finish_connection, connect (awaited / left pending / "
-        "1 ms later) against a device that is ok | unresolvable | refusing | hanging at TCP | sending garbage at hello | rejecting the password | silent; "
+        "1 ms later) against a device that is ok | unresolvable | refusing | hanging at TCP | sending garbage at hello | rejecting the password | silent (client configured with password 'pw' | none | empty | other); "
         "disconnect() (awaited or left pending, the device acknowledging it or not), disconnect(force=True), cancel of the pending call (connect phase or disconnect), device EOF / RST / DisconnectRequest / garbage, a request whose answer shares one chunk with a DisconnectRequest / garbage, "
         "a stop callback that reconnects at once from inside the callback, disconnect() and connect() back to back in one coroutine, a request whose "
         "failure handler reconnects at once, a public API method (rotating over every recipe of the API sweep: commands, "
         "subscriptions, requests), advance 1 ms / 1 s / 100 s}; ALL histories up to length 3 (quick) / 4 (thorough) over a "
         "12-symbol alphabet followed by a start probe, plus seeded random histories. Model over the class-boundary event log: attempt = a start/finish call is "
-        "in progress, or start succeeded and neither finish nor disconnect was called since; alive = finish succeeded and neither the connection's stop hook "
+        "in progress, or start succeeded and neither finish nor disconnect was called since; alive = finish succeeded on a session whose login the device did not reject, and neither the connection's stop hook "
         "nor a returned disconnect since. Oracle: start_connection refuses with 'Already connected' ONLY IF attempt or alive (never wedged), and MUST refuse "
         "while a session is alive or an un-closed attempt is in progress; every API call made while not alive raises APIConnectionError synchronously and "
         "neither a send_messages call nor a transport write happens inside it. Non-trivial = at least one start was judged after an earlier step; "
@@ -80,7 +80,9 @@ def run_history(hist: list[Any]) -> dict[str, Any]:
             sim.net.connect_policy = policy
             # the host name must go through the resolver so that 'dns-fail' bites; mDNS is not involved for an FQDN
             sim.net.dns["dev.example.com"] = ["10.0.0.1"]
-            cli = sim.client("dev.example.com", 6053, "pw")
+            # optional first step ["cfg", {...}]: how the client object is configured (password None / "" / "pw")
+            ccfg = hist[0][1] if hist and hist[0][0] == "cfg" else {}
+            cli = sim.client("dev.example.com", 6053, ccfg.get("password", "pw"))
             apply_world(sim, cfg, "ok")
             sim.net.dns["dev.example.com"] = ["10.0.0.1"]
             calls: list[Any] = []
@@ -119,6 +121,8 @@ def run_history(hist: list[Any]) -> dict[str, Any]:
             skipped = 0
             for step in hist:
                 op = step[0]
+                if op == "cfg":
+                    continue
                 if op in ("start", "connect"):
                     apply_world(sim, cfg, step[1])
                     if step[1] != "dns-fail":
@@ -276,7 +280,7 @@ def run_history(hist: list[Any]) -> dict[str, Any]:
             calls.append(fin)
             sim.run(until=lambda: fin.done, max_time=sim.clock + 150)
             out.update({
-                "log": list(log), "probes": probes, "calls": calls, "skipped": skipped,
+                "log": list(log), "probes": probes, "calls": calls, "skipped": skipped, "login_rejections": list(dev.login_rejections),
                 "stops": sorted((s[0], v.idx, s[2]) for v in sim.conns for s in v.on_stop),
                 "closed": {v.idx: v.closed_seq for v in sim.conns}, "created": [(v.created_seq, v.idx) for v in sim.conns],
                 "graceful": sorted((g[0], v.idx, g[1]) for v in sim.conns for g in v.graceful),
@@ -307,7 +311,10 @@ def judge(hist: list[Any], o: dict[str, Any]) -> tuple[list[tuple[str, str]], di
         evs.append((seq, "conn_new", idx))
     for p in o["probes"]:
         evs.append((p["seq"], "api", p))
+    for seq in o.get("login_rejections", []):
+        evs.append((seq, "login_rejected", None))
     evs.sort(key=lambda x: x[0])
+    rejected = False
     sf_pending: dict[int, dict[str, Any]] = {}   # token -> {"conn": idx|None}
     opened = False
     alive = False
@@ -363,12 +370,18 @@ def judge(hist: list[Any], o: dict[str, Any]) -> tuple[list[tuple[str, str]], di
                     last_reason = f"after a failed start ({type(e[6]).__name__})"
                     if not isinstance(e[6], APIConnectionError):
                         out.append((f"C19/raw-exception/{type(e[6]).__name__}", f"start_connection raised {e[6]!r}"))
+        elif kind == "login_rejected":
+            rejected = True     # the device flagged the password invalid: whatever the client makes of it, this session is not authenticated
         elif kind == "enter:finish_connection":
             opened = False
+            rejected = False
             sf_pending[e[4]] = {"kind": "finish"}
         elif kind == "ret:finish_connection":
             sf_pending.pop(e[4], None)
-            if e[5] == "ok":
+            if e[5] == "ok" and rejected:
+                stats["finish_ok_after_rejected_login"] = stats.get("finish_ok_after_rejected_login", 0) + 1
+                last_reason = "after the device rejected the login"
+            elif e[5] == "ok":
                 alive = True
                 last_reason = ""
             else:
@@ -418,7 +431,9 @@ def gen_history(rng: Any) -> list[Any]:
     h: list[Any] = []
     for _ in range(n):
         r = rng.random()
-        if r < 0.22:
+        if not h and r < 0.3:
+            h.append(["cfg", {"password": rng.choice([None, "", "pw", "other"])}])
+        elif r < 0.22:
             h.append(["start", rng.choice(WORLDS) if rng.random() < 0.5 else "ok", rng.choice(["done", "done", "none", "ms"])])
         elif r < 0.36:
             h.append(["finish", rng.choice(["done", "done", "none", "ms"])])
@@ -487,6 +502,14 @@ def shard(ctx: Ctx) -> None:
             idx += 1
             if ctx.mine(idx):
                 one(ctx, [list(ALPHABET[i]) for i in combo], f"all-histories-len{ln}")
+    # a password-protected device rejecting the login of clients configured with no / an empty / a wrong password, then every API recipe
+    for pw in (None, "", "pw", 0):
+        for how in (["connect", "badauth", "done"], ["start", "badauth", "done"]):
+            for k in range(0, 240, 16):
+                idx += 1
+                if ctx.mine(idx):
+                    h0: list[Any] = [["cfg", {"password": pw}], how] + ([["finish", "done"]] if how[0] == "start" else [])
+                    one(ctx, h0 + [["api", k + j] for j in range(16)], "login-rejected-then-api")
     for _ in range(400000 if ctx.thorough else 10000):
         h = gen_history(rng)
         idx += 1
